@@ -236,6 +236,15 @@ def main():
     jobs = [(n, p, tier, with_tests) for n, p, *_ in M if not names or n in names or p in names]
     with concurrent.futures.ThreadPoolExecutor(int(os.environ.get("VF_MUT_PAR", "4"))) as ex:
         res = list(ex.map(run_one, jobs))
+    import json
+    rp = os.path.join(HERE, "mutants", "results.json")
+    try:
+        allres = json.load(open(rp))
+    except Exception:
+        allres = {}
+    for name, pid, verdict, info in res:
+        allres[name] = {"property": pid, "tier": tier, "verdict": verdict, "info": info.strip()}
+    json.dump(allres, open(rp, "w"), indent=1, sort_keys=True)
     miss = 0
     for name, pid, verdict, info in res:
         print(f"{pid} {name:42s} {verdict:13s} {info}")
